@@ -3,6 +3,9 @@ package server
 import (
 	"fmt"
 	"math/big"
+	"time"
+
+	"google.golang.org/protobuf/proto"
 
 	"github.com/relab/hotstuff"
 	"github.com/relab/hotstuff/internal/proto/hotstuffpb"
@@ -108,12 +111,116 @@ func verifWireRogue(p vbase.Params, r *vbase.Result, base int) {
 						}
 						// genuine traffic of the victims (their keys and proofs are looked at again), then the forgeries once more
 						for _, v := range victims[:min(2, len(victims))] {
-							tm := w.HonestTimeouts(cur, []hotstuff.ID{v}, func(hotstuff.ID) hotstuff.QuorumCert { return hotstuff.NewQuorumCert(nil, 0, hotstuff.GetGenesis().Hash()) }, agg)
+							tm := w.HonestTimeouts(cur, []hotstuff.ID{v}, func(hotstuff.ID) hotstuff.QuorumCert {
+								return hotstuff.NewQuorumCert(nil, 0, hotstuff.GetGenesis().Hash())
+							}, agg)
 							if len(tm) == 1 {
 								s.call("timeout", v, hotstuffpb.TimeoutMsgToProto(tm[0]))
 							}
 						}
 						present("after-genuine-traffic")
+					}
+				}
+			}
+		}
+	}
+}
+
+// verifWireIdleLeader: the subject leads view 2 and has no client command to propose, so its event loop waits in the
+// command cache until the view ends - as a real idle leader does. While it waits, a peer that claims the subject's own
+// identity (without TLS the identity is request metadata) sends it a proposal for that very view, extending the known
+// block with a certificate nobody signed; then the subject's timer fires. The subject has neither voted nor timed out
+// in the view when it gets to the proposal: it must still not sign a vote for it.
+func verifWireIdleLeader(p vbase.Params, r *vbase.Result, base int) {
+	idx := base
+	for _, scheme := range vk.Schemes {
+		for _, cache := range []uint{0, 100} {
+			for _, n := range []int{4, 7} {
+				for _, claimed := range []hotstuff.ID{1, 0, 3} {
+					for _, qcKind := range []string{"no-signature", "genesis-signature-free-relabelled", "one-vote"} {
+						idx++
+						if !p.Mine(idx) {
+							continue
+						}
+						rng := vbase.NewRng(p.Seed, "C10.wire.idle", scheme, cache, n, claimed, qcKind)
+						subjectWithoutCommands = true
+						s := newSubject(n, scheme, cache, false, "fresh", rng)
+						subjectWithoutCommands = false
+						w := s.w
+						known := s.blocks[len(s.blocks)-1] // view 1, proposed by replica 2
+						s.node.Chain.Store(known)
+						var qc *hotstuffpb.QuorumCert
+						kh := known.Hash()
+						switch qcKind {
+						case "no-signature":
+							qc = &hotstuffpb.QuorumCert{Hash: kh[:], View: uint64(known.View())}
+						case "genesis-signature-free-relabelled":
+							qc = &hotstuffpb.QuorumCert{Hash: kh[:], View: 0}
+						default:
+							one, err := w.M(3).Auth.Sign(known.ToBytes())
+							if err != nil {
+								panic(err)
+							}
+							qc = &hotstuffpb.QuorumCert{Hash: kh[:], View: uint64(known.View()), Sig: hotstuffpb.QuorumSignatureToProto(one)}
+						}
+						forged := &hotstuffpb.Proposal{Block: &hotstuffpb.Block{Parent: kh[:], QC: qc, View: 2, Proposer: 1,
+							Commands: vk.Batch(4711, 1, 1), Timestamp: hotstuffpb.BlockToProto(known).Timestamp}}
+						// the block as the subject will see it (the server stamps the claimed sender as proposer)
+						seen := proto.Clone(forged.Block).(*hotstuffpb.Block)
+						seen.Proposer = uint32(claimed)
+						seenBlock := hotstuffpb.BlockFromProto(seen)
+						// a genuine TC for view 1 brings the subject into view 2, which it leads
+						tms := w.HonestTimeouts(1, vk.IDs(n)[1:w.Q()+1], func(hotstuff.ID) hotstuff.QuorumCert {
+							return hotstuff.NewQuorumCert(nil, 0, hotstuff.GetGenesis().Hash())
+						}, false)
+						tc, err := w.M(2).Auth.CreateTimeoutCert(1, tms)
+						if err != nil {
+							continue // BLS library defect on this input
+						}
+						tag := fmt.Sprintf("idle-leader/%s/cache=%d/n=%d/claimed=%d/%s", scheme, cache, n, claimed, qcKind)
+						stop := watch(p, r, tag, "propose")
+						done := make(chan struct{})
+						go func() {
+							defer close(done)
+							// wait until the subject's loop is parked in the command cache (or, on a fast path, has moved on)
+							for k := 0; k < 2000 && s.node.VS.View() < 2; k++ {
+								time.Sleep(200 * time.Microsecond)
+							}
+							time.Sleep(3 * time.Millisecond)
+							func() {
+								defer func() { _ = recover() }()
+								s.impl.Propose(peerCtx(claimed), forged)
+							}()
+							s.node.StopTimer()
+							s.w.M(1).EL.AddEvent(hotstuff.TimeoutEvent{View: 2})
+						}()
+						pan, site := s.call("newview", 2, &hotstuffpb.SyncInfo{TC: hotstuffpb.TimeoutCertToProto(tc)})
+						<-done
+						if pan == nil {
+							_, pan, site = s.node.Drain(10000)
+						}
+						stop()
+						r.Eval(true, tag)
+						r.Obs("idle_leader_scenarios", 1)
+						rep := map[string]any{"scheme": scheme, "cache": cache, "n": n, "claimed_identity": claimed, "certificate": qcKind}
+						if pan != nil {
+							r.Violate(vbase.Sig("panic", "msg", "propose", "site", site), fmt.Sprintf("%s: the replica panics in %s: %v", tag, site, pan), rep)
+							continue
+						}
+						if s.node.VS.View() < 2 {
+							r.Obs("idle_leader_view_not_reached", 1)
+							continue
+						}
+						if w.Log.Signed(1, seenBlock.ToBytes()) {
+							r.Violate(vbase.Sig("unvalidated-installed", "what", "vote-for-uncertified-proposal", "claimed", fmt.Sprint(claimed), "qc", qcKind),
+								fmt.Sprintf("an idle leader (view 2, nothing to propose, not voted, not timed out) received a proposal for its view under the claimed identity %d whose certificate (%s) nobody signed, and signed a vote for it (%s)",
+									claimed, qcKind, tag), rep)
+						}
+						if hq := s.node.VS.HighQC(); hq.BlockHash() == known.Hash() && hq.View() > 0 {
+							if v, _ := w.TrueQC(hq); v == vk.MustReject {
+								r.Violate(vbase.Sig("unvalidated-installed", "what", "highqc", "msg", "propose"), fmt.Sprintf("%s: the replica holds a high QC nobody signed", tag), rep)
+							}
+						}
 					}
 				}
 			}
